@@ -132,7 +132,8 @@ fn check_arena(st: &mut Stats, line: &Value, idx: usize, sweep_every: u64, full_
                     }
                 }
                 Err(e) => {
-                    if want || !matches!(e, hpo::HpoError::DoesNotExist) {
+                    // which error variant is returned is not part of the property
+                    if want {
                         d.push(format!("HpoTerm::try_new({id}) = Err({e}), term added: {want}"));
                     }
                 }
